@@ -245,7 +245,9 @@ Definition C17_spec (e : entity) (cs : list component) : Prop :=
 Definition starts_letter (s : bytes) : bool := match s with c :: _ => is_letter c | [] => false end.
 Definition starts_cap (s : bytes) : bool := match s with c :: _ => is_cap c | [] => false end.
 Definition name_ok (s : bytes) : bool := ident s && starts_letter s.
-Definition type_name_ok (s : bytes) : bool := forallb alnum s && starts_cap s.
+(* an event name: an identifier with an upper-case initial (`Create`, `Do_Thing`, `D2`; a lower-case initial
+   makes the oneof option and the nested message one symbol) *)
+Definition type_name_ok (s : bytes) : bool := ident s && starts_cap s.
 
 (* inline anonymous schemas (field x object { ... } / oneof { ... } / enum { ... }): the type is nested in
    the message under the name ToCamel(field); its own fields / options form a scope of their own; the
@@ -396,7 +398,7 @@ Definition colon_params (p : bytes) : list bytes :=
 Definition rel_path_ok (p : bytes) : bool :=
   forallb (fun c => alnum c || (c =? 95) || (c =? 47) || (c =? 58)) p.
 Definition method_wf (e : entity) (m : method) : bool :=
-  type_name_ok (md_name m) && rel_path_ok (md_path m)
+  name_ok (md_name m) && rel_path_ok (md_path m)
   && fields_wf (md_request m) && forallb (ref_ok e) (md_request m)
   && match md_response m with Some r => fields_wf r && forallb (ref_ok e) r | None => true end
   && forallb (fun p => existsb (bytes_eqb p) (map uf_name (md_request m))) (colon_params (md_path m)).
@@ -467,7 +469,7 @@ Definition in_quantifier (e : entity) : bool :=
              (e_events e)
   && nodup_bytes (map (fun ev => to_snake (to_lower_camel (ev_name ev))) (e_events e))
   (* 0..n command services, each with distinct method names *)
-  && forallb (fun c => match c_name c with Some n => type_name_ok n | None => true end
+  && forallb (fun c => match c_name c with Some n => name_ok n | None => true end
                        && match c_base c with Some b => rel_path_ok b && is_nil (colon_params b) | None => true end
                        && forallb (method_wf e) (c_methods c)
                        && nodup_bytes (map md_name (c_methods c))) (e_commands e)
@@ -475,8 +477,8 @@ Definition in_quantifier (e : entity) : bool :=
   && forallb (fun s => (is_nil (s_name s) || name_ok (s_name s)) && fields_wf (s_fields s)
                        && forallb (ref_ok e) (s_fields s)) (e_summaries e)
   && nodup_bytes (map s_name (e_summaries e))
-  (* schemas of the block *)
-  && forallb (fun s => type_name_ok (schema_name s) && fields_wf (schema_fields s) && forallb (ref_ok e) (schema_fields s))
+  (* schemas of the block: any identifier is a schema name (`enum level_type`: the compiler keeps it as written) *)
+  && forallb (fun s => name_ok (schema_name s) && fields_wf (schema_fields s) && forallb (ref_ok e) (schema_fields s))
              (e_schemas e)
   (* the type / value / service names of each of the three packages, as documented, are distinct:
      the names the user chooses do not repeat each other or the entity's own component names *)
